@@ -1,17 +1,8 @@
-"""Trace validation with named deviations (code -> spec), used by C14 / C15.
+"""Trace validation with deviation reporting (helper for C04/C05; same protocol as lib/trace.py).
 
-Same protocol as lib.trace (REJECTED_AT / ACCEPTED, executions separated by a marker event, many
-executions per TLC start, a rejected execution is cut out and the rest validated again) and in
-addition the trace spec prints, at acceptance,
-
-    PrintT(<<"DEVUSED", ToJson(devAt)>>)      devAt : deviation name -> number of the execution
-                                               (1-based, in file order) that first needed it
-
-which is returned as {dev: example execution}.  The trace spec receives `Dev` through the cfg the
-caller generates (the names currently listed as known), so an execution that needs an unlisted
-deviation is *rejected*.  `explain()` re-validates one rejected execution against the spec's whole
-deviation catalogue to name the deviation in the report (diagnostics only; the verdict is already
-"rejected")."""
+Like lib.trace.validate, but additionally returns the union of the `<<"DEVUSED", {...}>>` sets the
+trace spec printed at acceptance, so that a check can classify accepted-only-through-a-deviation
+executions with ctx.deviation().  A rejected execution is cut out and the remainder re-validated."""
 import concurrent.futures as cf
 import json
 import os
@@ -23,40 +14,27 @@ from .trace import split_executions
 
 _RE_REJ = re.compile(r'<<"REJECTED_AT", (\d+)>>')
 _RE_ACC = re.compile(r'<<"ACCEPTED", (\d+)>>')
-
-
-def _parse(ev):
-    out = []
-    for ln in ev:
-        try:
-            out.append(json.loads(ln))
-        except Exception:
-            out.append(ln)
-    return out
+_RE_DEV = re.compile(r'<<"DEVUSED", \{([^}]*)\}>>')
 
 
 def _chunk(module, cfg, execs, rundir, tag, env_extra, timeout_s, max_rejects):
-    rejected, devused, states, unvalidated = [], {}, 0, 0
+    rejected, states, devs = [], 0, set()
     execs = list(execs)
-    path = os.path.join(rundir, "trace-%s.ndjson" % tag)
     while execs:
+        path = os.path.join(rundir, "trace-%s.ndjson" % tag)
         with open(path, "w") as f:
             for e in execs:
                 for ln in e:
                     f.write(ln.rstrip("\n") + "\n")
         env = {"TRACE": path}
-        if env_extra:
-            env.update(env_extra)
+        env.update(env_extra or {})
         r = T.tlc(module, cfg, rundir=rundir, workers=1, timeout_s=timeout_s, env=env, tag="tv-" + tag, deadlock=True)
         states += r.distinct
-        if _RE_ACC.search(r.out) and r.status == "ok":
-            for d in r.printed("DEVUSED"):
-                if isinstance(d, dict):
-                    for name, idx in d.items():
-                        if name not in devused and 1 <= int(idx) <= len(execs):
-                            devused[name] = execs[int(idx) - 1]
-            break
         m = _RE_REJ.search(r.out)
+        if _RE_ACC.search(r.out) and r.status == "ok":
+            for d in _RE_DEV.finditer(r.out):
+                devs.update(x.strip().strip('"') for x in d.group(1).split(",") if x.strip())
+            break
         if not m:
             raise Broken("trace validation run failed (%s, rc=%s): %s" % (r.status, r.rc, r.out[-2500:]))
         pos = int(m.group(1))
@@ -71,42 +49,35 @@ def _chunk(module, cfg, execs, rundir, tag, env_extra, timeout_s, max_rejects):
         rejected.append((execs[hit], pos - acc - 1))
         del execs[hit]
         if len(rejected) >= max_rejects:
-            unvalidated = len(execs)     # give up on this chunk: enough evidence, do not count the rest
-            execs = []
             break
     try:
-        os.unlink(path)
+        os.unlink(os.path.join(rundir, "trace-%s.ndjson" % tag))
     except OSError:
         pass
-    return len(execs), rejected, devused, states, unvalidated
+    return len(execs), rejected, states, devs
 
 
-def validate(ctx, module, cfg, lines, *, marker='"e":"Cfg"', chunk=200, parallel=4, env=None,
-             timeout_s=900, max_rejects=3, tag="t"):
+def validate(ctx, module, cfg, lines, *, marker='"e":"Cfg"', chunk=200, parallel=4, env=None, timeout_s=900,
+             max_rejects=5, tag="t"):
     execs = split_executions(lines, marker)
     chunks = [execs[i:i + chunk] for i in range(0, len(execs), chunk)]
-    res = {"executions": len(execs), "accepted": 0, "rejected": [], "events": len(lines), "devused": {},
-           "unvalidated": 0}
+    res = {"executions": len(execs), "accepted": 0, "rejected": [], "events": len(lines), "devused": set()}
     with cf.ThreadPoolExecutor(max_workers=max(1, parallel)) as ex:
         futs = [ex.submit(_chunk, module, cfg, c, ctx.rundir.path, "%s%d" % (tag, i), env, timeout_s, max_rejects)
                 for i, c in enumerate(chunks)]
         for f in futs:
-            n, rej, dev, states, unval = f.result()
+            n, rej, states, devs = f.result()
             res["accepted"] += n
-            res["unvalidated"] += unval
+            res["devused"] |= devs
             ctx.states += states
             ctx.transitions += states
             for e, off in rej:
-                res["rejected"].append({"events": _parse(e), "at": off})
-            for d, e in dev.items():
-                res["devused"].setdefault(d, _parse(e))
+                ev = []
+                for ln in e:
+                    try:
+                        ev.append(json.loads(ln))
+                    except Exception:
+                        ev.append(ln)
+                res["rejected"].append({"events": ev, "at": off})
     ctx.traces += res["accepted"] + len(res["rejected"])
     return res
-
-
-def explain(ctx, module, cfg_all, events, *, env=None, timeout_s=300, tag="x"):
-    """Which deviations of the whole catalogue (cfg_all has Dev = all names) would explain this one
-    rejected execution?  Returns a list of names, [] if none does."""
-    lines = [e if isinstance(e, str) else json.dumps(e) for e in events]
-    n, rej, dev, states, _ = _chunk(module, cfg_all, [lines], ctx.rundir.path, "explain-" + tag, env, timeout_s, 1)
-    return sorted(dev.keys()) if n == 1 and not rej else []
